@@ -548,9 +548,53 @@ func knownMinLen(v ssa.Value, depth int) (int64, bool) {
 		return n, true
 	}
 	switch x := v.(type) {
+	case *ssa.Parameter:
+		// the slice parameter of an unexported helper: at least what every caller hands it
+		if theCtx == nil || x.Parent() == nil || x.Parent().Object() == nil || x.Parent().Object().Exported() {
+			return 0, false
+		}
+		sites, ok := theCtx.staticCallers(x.Parent())
+		if !ok || len(sites) == 0 {
+			return 0, false
+		}
+		idx := -1
+		for j, q := range x.Parent().Params {
+			if q == x {
+				idx = j
+			}
+		}
+		min := int64(-1)
+		for _, s := range sites {
+			if idx < 0 || idx >= len(s.Common().Args) {
+				return 0, false
+			}
+			n, ok := knownMinLen(s.Common().Args[idx], depth+1)
+			if !ok {
+				return 0, false
+			}
+			if min < 0 || n < min {
+				min = n
+			}
+		}
+		return min, min >= 0
 	case *ssa.MakeSlice:
 		return minMakeLen(x.Len)
 	case *ssa.Slice:
+		// x[:K+n] / x[lo:K+n] with n a count that cannot be negative (what a Read returned, a len):
+		// at least K-lo elements whenever the slice expression itself is in bounds
+		if x.High != nil {
+			if bo, ok := strip(x.High).(*ssa.BinOp); ok && bo.Op == token.ADD {
+				lo, loOK := int64(0), x.Low == nil
+				if x.Low != nil {
+					lo, loOK = constInt(x.Low)
+				}
+				for _, pr := range [][2]ssa.Value{{bo.X, bo.Y}, {bo.Y, bo.X}} {
+					if k, isC := constInt(pr[0]); isC && loOK && k >= lo && nonNegCount(pr[1]) {
+						return k - lo, true
+					}
+				}
+			}
+		}
 		// x[i : i+K]: exactly K elements whenever the slice expression itself is in bounds (which the
 		// bounds rule decides)
 		if x.Low != nil && x.High != nil {
@@ -670,4 +714,30 @@ func c17ResponseFields(c *Ctx) {
 	sv, isC := constInt(writes[2].val)
 	c.Check(writes[2].width == 2 && isC && sv == 0, rule, key+" server-version", writes[2].call.Pos(), "server version field = 0", "the server version field of the handshake response is not the constant 0")
 	c.Check(writes[3].width == 2 && fromParam(writes[3].val, caps) && len(origins(writes[3].val)) == 1, rule, key+" capabilities", writes[3].call.Pos(), "last field = the capability word handed in", "the capability field of the handshake response is not the capability parameter")
+}
+
+// nonNegCount: a value that cannot be negative: a len/cap, or the count a Read/Write-style call
+// returned (io.Reader/io.Writer contract: 0 <= n <= len(p)).
+func nonNegCount(v ssa.Value) bool {
+	v = strip(unspill(v))
+	switch x := v.(type) {
+	case *ssa.Call:
+		if bi, ok := x.Call.Value.(*ssa.Builtin); ok && (bi.Name() == "len" || bi.Name() == "cap" || bi.Name() == "copy") {
+			return true
+		}
+	case *ssa.Extract:
+		if call, ok := x.Tuple.(*ssa.Call); ok && x.Index == 0 {
+			m := ""
+			if call.Call.IsInvoke() {
+				m = call.Call.Method.Name()
+			} else if cal := call.Call.StaticCallee(); cal != nil {
+				m = cal.Name()
+			}
+			switch m {
+			case "Read", "Write", "ReadFull", "ReadAtLeast", "ReadPacket", "WritePacket":
+				return true
+			}
+		}
+	}
+	return false
 }
